@@ -1474,6 +1474,10 @@ class Context:
                 finally:
                     ctx._current_vm = outer
                     vm.native_depth[0] -= 2
+                    if outer is not None:
+                        # The instructions run here count towards the caller's
+                        # next deadline poll; many short evals must reach one too
+                        outer.instruction_count = vm.instruction_count
             except (JSError, _ScriptThrow):
                 # Syntax errors, script exceptions and limit errors keep their
                 # identity: the caller's interpreter makes them catchable (or not)
